@@ -31,8 +31,46 @@ const FAULT: &str = "verif-stream-fault";
 
 #[derive(Serialize, Deserialize, Debug, PartialEq, Clone)]
 pub struct Req {
-    a: i32,
+    a: Num,
     s: String,
+}
+
+/// A number whose text form ("7") is valid in human-readable encodings only - the way conjure's uuid (text in JSON, 16
+/// bytes in Smile) branches on `Deserializer::is_human_readable`.  A Smile document that spells it as text is of the
+/// wrong type for a server.
+#[derive(Debug, PartialEq, Clone)]
+pub struct Num(i32);
+
+impl Serialize for Num {
+    fn serialize<S: serde::Serializer>(&self, s: S) -> Result<S::Ok, S::Error> {
+        s.serialize_i32(self.0)
+    }
+}
+
+impl<'de> Deserialize<'de> for Num {
+    fn deserialize<D: serde::Deserializer<'de>>(d: D) -> Result<Num, D::Error> {
+        struct V(bool);
+        impl<'de> serde::de::Visitor<'de> for V {
+            type Value = Num;
+            fn expecting(&self, f: &mut std::fmt::Formatter) -> std::fmt::Result {
+                f.write_str("a number")
+            }
+            fn visit_i64<E: serde::de::Error>(self, v: i64) -> Result<Num, E> {
+                i32::try_from(v).map(Num).map_err(|_| E::custom("out of range"))
+            }
+            fn visit_u64<E: serde::de::Error>(self, v: u64) -> Result<Num, E> {
+                i32::try_from(v).map(Num).map_err(|_| E::custom("out of range"))
+            }
+            fn visit_str<E: serde::de::Error>(self, v: &str) -> Result<Num, E> {
+                if !self.0 {
+                    return Err(E::custom("text form in a binary encoding"));
+                }
+                v.parse().map(Num).map_err(|_| E::custom("not a number"))
+            }
+        }
+        let hr = d.is_human_readable();
+        d.deserialize_any(V(hr))
+    }
 }
 
 #[derive(Serialize)]
@@ -123,7 +161,7 @@ fn make_body(enc: &str, cls: &str, target: Option<usize>, rng: &mut Rng) -> Resu
     };
     for n in lens {
         let s: String = (0..n).map(|i| (b'a' + ((i as u64 + rng.0 % 26) % 26) as u8) as char).collect();
-        let req = Req { a: 7, s: s.clone() };
+        let req = Req { a: Num(7), s: s.clone() };
         let doc = encode(enc, &req);
         let mut body = match cls {
             "doc" => doc.clone(),
@@ -164,7 +202,8 @@ fn make_body(enc: &str, cls: &str, target: Option<usize>, rng: &mut Rng) -> Resu
                 }
             }
             "unknown" => encode(enc, &ReqExtra { a: 7, s: s.clone(), zz: 1 }),
-            "wrongtype" => encode(enc, &ReqWrong { a: "q".into(), s: s.clone() }),
+            // Smile: alternately the text form of the number, which only human-readable encodings admit
+            "wrongtype" => encode(enc, &ReqWrong { a: if enc == "smile" && rng.0 % 2 == 0 { "7" } else { "q" }.into(), s: s.clone() }),
             "otherenc" => encode(if enc == "smile" { "json" } else { "smile" }, &req),
             other => return Err(format!("unknown class {other}")),
         };
